@@ -305,6 +305,10 @@ fn for_each_king_pair(mut f: impl FnMut(u8, u8)) {
 
 #[derive(Clone, Copy, PartialEq, Eq, Debug)]
 pub enum Family {
+    /// one white pawn anywhere on ranks 2-6, black king anywhere, white king in a corner,
+    /// optionally a black knight on one of the pawn's capture squares: single pushes, double
+    /// pushes and pawn captures that give (or do not give) direct check
+    PawnPush,
     /// ep pawns, black king anywhere, white king in a corner, one WHITE piece anywhere:
     /// en-passant captures that give direct, discovered and double checks
     EpCheck,
@@ -323,6 +327,41 @@ pub fn family_positions(fam: Family, level: u8) -> Vec<Position> {
     let mut out = vec![];
     let extras = [Pc::Q, Pc::R, Pc::B, Pc::N];
     match fam {
+        Family::PawnPush => {
+            for ps in 8..48u8 {
+                let (pf, pr) = ((ps % 8) as i8, (ps / 8) as i8);
+                let mut victims: Vec<Option<u8>> = vec![None];
+                for df in [-1i8, 1] {
+                    if (0..8).contains(&(pf + df)) {
+                        victims.push(Some(sq(pf + df, pr + 1)));
+                    }
+                }
+                for victim in victims {
+                    let mut base = Position::empty();
+                    base.turn = Col::W;
+                    base.full = 1;
+                    place(&mut base, ps, Col::W, Pc::P);
+                    if let Some(v) = victim {
+                        place(&mut base, v, Col::B, Pc::N);
+                    }
+                    for bk in 0..64u8 {
+                        for wk in [0u8, 7, 56, 63, 4, 60] {
+                            let mut p = base.clone();
+                            if !place(&mut p, bk, Col::B, Pc::K) || !place(&mut p, wk, Col::W, Pc::K) {
+                                continue;
+                            }
+                            if p.valid_root().is_err() {
+                                continue;
+                            }
+                            out.push(p);
+                            if level == 0 {
+                                break;
+                            }
+                        }
+                    }
+                }
+            }
+        }
         Family::EpCheck => {
             for f in 0..8i8 {
                 for d in [-1i8, 1] {
